@@ -131,6 +131,46 @@ def schema_view(g) -> Any:
     return canon({"properties": s.get("properties", {}), "required": sorted(s.get("required", []))})
 
 
+def conforming_data(g) -> dict[str, Any]:
+    """A value of the declared type for every name (public description only; an array of ones when unknown)."""
+    import json as _json
+
+    out: dict[str, Any] = {}
+    cls = type(g).__name__
+    props: dict[str, Any] = {}
+    if cls == "JSONGrammar":
+        try:
+            props = _json.loads(g.to_json()).get("properties", {})
+        except Exception:  # noqa: BLE001
+            props = {}
+    for n in g.names:
+        v: Any = np.array([1.0])
+        try:
+            if cls == "JSONGrammar":
+                p = props.get(n, {})
+                t = p.get("type")
+                if t == "array":
+                    it = (p.get("items") or {}).get("type") if isinstance(p.get("items"), dict) else None
+                    v = np.array([1, 2]) if it == "integer" else np.array(["s"]) if it == "string" else np.array([1.0])
+                elif t == "integer":
+                    v = 3
+                elif t == "number":
+                    v = 1.5
+                elif t == "string":
+                    v = "s"
+                elif t == "boolean":
+                    v = True
+                elif t == "object":
+                    v = {}
+            elif cls in ("SimpleGrammar", "SimplerGrammar"):
+                t = g[n]
+                v = 3 if t is int else 1.5 if t is float else "s" if t is str else True if t is bool else {} if t is dict else np.array([1.0])
+        except Exception:  # noqa: BLE001
+            pass
+        out[n] = v
+    return out
+
+
 def grammar_probe_data(g, rng) -> list[dict[str, Any]]:
     """A few data dicts to submit to `validate` (valid: the defaults; invalid: missing required, wrong type)."""
     base = {n: np.array([1.0]) for n in g.names}
@@ -142,6 +182,16 @@ def grammar_probe_data(g, rng) -> list[dict[str, Any]]:
         d = dict(base)
         d.pop(n, None)
         datas.append(d)
+    # data conforming to the declared types (read from the public description of the grammar), then each name in
+    # turn with a float, an integer, a float array: a value is accepted or not according to the type of the
+    # element *and* to the dialect of the schema (an integer element accepts 1.0 or not)
+    conf = conforming_data(g)
+    datas.append(dict(conf))
+    for n in some:
+        for v in (np.array([1.0]), 1.0, 3, np.array([2])):
+            d = dict(conf)
+            d[n] = v
+            datas.append(d)
     if names:
         n = names[rng.randrange(len(names))]
         d = dict(base)
@@ -227,6 +277,8 @@ def discipline_view(d) -> dict[str, Any]:
                 v[attr] = canon(getattr(d, attr))
             except Exception as e:  # noqa: BLE001
                 v[attr] = "E:" + type(e).__name__
+    if type(d).__module__ == "harness.c20_disc" and hasattr(d, "n_run"):
+        v["n_run"] = int(d.n_run)  # runs made in the calling process (harness discipline)
     if hasattr(d, "disciplines"):
         try:
             v["sub"] = tuple((type(s).__name__, s.name) for s in d.disciplines)
